@@ -163,6 +163,26 @@ def c06(tier):
     return runs
 
 
+def c07(tier):
+    if tier == "quick":
+        return [dict(harness="verifHarness_C07", args=a) for a in ([1, 0], [2, 0], [3, 0], [1, 1], [1, 2], [2, 2])]
+    return [dict(harness="verifHarness_C07", args=a) for a in ([1, 0], [2, 0], [3, 0], [4, 0], [1, 1], [2, 1], [1, 2], [2, 2])]
+
+
+def c11(tier):
+    q = tier == "quick"
+    runs = [dict(harness="verifHarness_C11", args=[n, l]) for l in (0, 1, 2) for n in ((1, 2) if q else (1, 2, 3))]
+    return runs
+
+
+def c12(tier):
+    q = tier == "quick"
+    runs = [dict(harness="verifHarness_C12", args=[n, 0]) for n in range(0, (3 if q else 4) + 1)]
+    runs.append(dict(harness="verifHarness_C12", args=[(4 if q else 5), 1]))
+    runs += [dict(harness="verifHarness_C12_soup", args=[m]) for m in ((2, 3) if q else (2, 3, 4))]
+    return runs
+
+
 def c10(tier):
     runs = s1_parser("verifHarness_C10", "C10/bad", tier, sig_extra=False)
     return runs + s2_errors(10, tier)
@@ -190,6 +210,14 @@ def c09(tier):
 
 
 PROPS = {
+    "C11": dict(level="model_checking", runs=cutpanics(c11), reach=["C11/both-accept", "C11/both-reject"],
+                bounds={"quick": "lists of <= 2 pieces from a 17-entry statement vocabulary (incl. end-of-input sensitive ones: 'SELECT 1,', 'SELECT a, FROM t', trailing comma in CREATE TABLE, empty and comment-only pieces, rejected pieces) x 6 separator forms x optional trailing ';', for ParseStatements, ParseDDLs and ParseDMLs",
+                        "thorough": "lists of <= 3 pieces"},
+                outside="statements outside the vocabulary; longer lists"),
+    "C12": dict(level="model_checking", runs=cutpanics(c12), reach=["C12/accepted", "C12/rejected"],
+                bounds={"quick": "all byte strings of length <= 3; length 4 over the 24-symbol alphabet; soups of <= 3 snippets from a 20-entry vocabulary of semicolons, literals and comments containing ';', '--', '/*' (glued without separators)",
+                        "thorough": "all byte strings of length <= 4; length 5 over the alphabet; soups of <= 4 snippets"},
+                outside="longer inputs"),
     "C13": dict(level="model_checking", runs=cutpanics(c13),
                 bounds={"quick": "all byte strings (256 values per byte) of length <= 3 from the initial lexer state and length <= 2 after 'a.' (dot-identifier mode); all strings of length 4 over the 24-symbol alphabet",
                         "thorough": "all byte strings of length <= 4 (and <= 3 after 'a.'); length 5 over the 24-symbol alphabet"},
@@ -229,6 +257,10 @@ PROPS = {
                 bounds={"quick": "S1: all byte strings of length <= 2 on all nine entry points; length 3 over the 24-symbol alphabet for ParseExpr/ParseType",
                         "thorough": "S1: all byte strings of length <= 3; length 4 over the 24-symbol alphabet"},
                 outside="longer inputs"),
+    "C07": dict(level="model_checking", runs=cutpanics(c07), reach=["C07/ok", "C07/both-reject"],
+                bounds={"quick": "all operator sequences a op b op c op d over the 21 binary spellings (3 operators, 9261 sequences); 1 operator with every prefix (- + ~ NOT) on both operands; 1-2 operators with every postfix form (IS [NOT] NULL/TRUE, [NOT] IN, [NOT] BETWEEN, .f, [1]) at every operand position and every prefix on the first operand",
+                        "thorough": "additionally 4 operators (194481 sequences) and 2 operators with every prefix on all three operands"},
+                outside="more operator occurrences; prefixes combined with postfixes on inner operands beyond the listed shapes; the 'random beyond' clause of the property is not done (sampling is not this technique)"),
     "C08": dict(level="model_checking", runs=cutpanics(c08), reach=["C08/accepted"],
                 bounds={"quick": "23 sentence families (queries, expressions, types, DML, DDL incl. search/vector index, change stream, sequence, model, grant/revoke, proto bundle, locality group, property graph, CALL): every sentence with at most 2 optional clauses / non-default alternatives / longer lists switched on, lists of <= 2 elements; each sentence alone, and twice in a ';' list with and without trailing ';'",
                         "thorough": "same families with at most 3 deviations, lists of <= 3 elements"},
